@@ -1873,12 +1873,7 @@ func (s *Store) Backup(ctx context.Context, br *proto.BackupRequest, dst io.Writ
 			if err != nil {
 				return err
 			}
-			defer func() {
-				err := dstGz.Close()
-				if err != nil && retErr == nil {
-					retErr = err
-				}
-			}()
+			defer finishGzip(dstGz, &retErr)
 			if vhook.Fail("backup.copy") {
 				srcFD.Close() // the copy below fails with a read error
 			}
@@ -1897,12 +1892,7 @@ func (s *Store) Backup(ctx context.Context, br *proto.BackupRequest, dst io.Writ
 			if err != nil {
 				return err
 			}
-			defer func() {
-				err := dstGz.Close()
-				if err != nil && retErr == nil {
-					retErr = err
-				}
-			}()
+			defer finishGzip(dstGz, &retErr)
 			ww = dstGz
 		}
 		return s.db.Dump(ww, br.Tables...)
@@ -1933,12 +1923,7 @@ func (s *Store) Backup(ctx context.Context, br *proto.BackupRequest, dst io.Writ
 			if err != nil {
 				return err
 			}
-			defer func() {
-				err := dstGz.Close()
-				if err != nil && retErr == nil {
-					retErr = err
-				}
-			}()
+			defer finishGzip(dstGz, &retErr)
 			if vhook.Fail("backup.copy") {
 				tmpReadFD.Close() // the copy below fails with a read error
 			}
@@ -1952,6 +1937,19 @@ func (s *Store) Backup(ctx context.Context, br *proto.BackupRequest, dst io.Writ
 		return err
 	}
 	return ErrInvalidBackupFormat
+}
+
+// finishGzip completes the compressed stream written through gzw, but only if
+// the backup it carries succeeded. The end of the compressed stream is how a
+// reader knows it has received the whole backup, so a backup that failed part
+// way through must not be terminated like a complete one.
+func finishGzip(gzw *gzip.Writer, retErr *error) {
+	if *retErr != nil {
+		return
+	}
+	if err := gzw.Close(); err != nil {
+		*retErr = err
+	}
 }
 
 // Load loads an entire SQLite file into the database, sending the request
